@@ -403,7 +403,7 @@ class Program(object):
                 # fields and expression text); other parameters and the helper's own locals get a suffix so that they cannot be
                 # mistaken for a caller variable of the same name
                 suffix = "@" + (gflat.base.rsplit("::", 1)[-1] if not gflat.is_lambda else "lambda%s" % gflat.line)
-                ren, txt = {}, {}
+                ren, txt, refmap = {}, {}, {}
                 cargs = call.get("args") or []
                 for i, p_ in enumerate(gflat.params):
                     pn = p_.get("name")
@@ -413,6 +413,11 @@ class Program(object):
                     if a_.get("v") and (a_.get("t") or "").strip() in (a_["v"], "std::move(%s)" % a_["v"]):
                         ren[pn] = (a_["v"], a_.get("vd"))
                         txt[pn] = a_["v"]
+                    elif a_.get("f") and re.match(r"^(this->)?\w+$", (a_.get("t") or "").strip()):
+                        # handed a member of the caller's object: inside the helper the parameter *is* that member
+                        refmap[pn] = {k_: v_ for k_, v_ in a_.items() if k_ in ("t", "f", "b", "ft", "ty", "root", "rootT", "rootd")}
+                        ren[pn] = (pn + suffix, None)
+                        txt[pn] = a_["t"].strip()
                     else:
                         ren[pn] = (pn + suffix, None)
                         if a_.get("t"):
@@ -424,6 +429,8 @@ class Program(object):
 
                 def subst(x):
                     if isinstance(x, dict):
+                        if x.get("v") in refmap and (x.get("t") or "").strip() == x.get("v"):
+                            return dict(refmap[x["v"]])
                         out = {}
                         for k_, v_ in x.items():
                             if k_ in ("v", "var", "root") and isinstance(v_, str) and v_ in ren:
